@@ -887,10 +887,13 @@ fn absurd_family(out: &mut Vec<Fail>) -> usize {
         "pub type T { pub a: [[u64; 4294967296]; 4294967296] }".into(),
         "pub type Node { vftable { pub fn visit(&mut self); }, pub next: Node }".into(),
         "pub type A { pub a: A }".into(),
+        "pub type T { vftable { pub fn f(&self); pub fn g(&self); }, pub p: *const T, pub q: [*mut u8; 3] }".into(),
+        "pub type B { vftable { pub fn f(&self); }, } pub type D { #[base] pub b: B, pub x: *const D } impl D { #[address(0x10)] pub fn g(&self, a: *const B) -> *mut D; }".into(),
     ];
     let mut n = 0;
     for src in srcs {
-        for ptr in [0usize, 4, 8] {
+        // the pointer size is an API parameter (`SemanticState::new`): absurd values are part of "any sequence of public API calls"
+        for ptr in [0usize, 4, 8, 1usize << 63, usize::MAX] {
             // a worker thread with a deadline: "never hang"
             let s2 = src.clone();
             let (tx, rx) = std::sync::mpsc::channel();
